@@ -187,16 +187,21 @@ def plane_normal(ctx):
         ratios = [sp.cancel(sp.together(got[i] / G[i])) for i in range(3)]
         r0 = ratios[0]
         same = all(sp.simplify(r_ - r0) == 0 for r_ in ratios)
-        nrm_atoms = list(sp.sympify(r0).atoms(sp.Function))
+        # got = r0·G with one common factor r0.  Unit length: r0²·|G|² = 1 (a length taken by np.linalg.norm or written out as a square root of a sum of squares is the
+        # same thing); sense: r0 > 0 -- r0 is continuous and never zero on the right-handed cells, so its sign at one sample cell is its sign
         unit = False
         pos = False
-        if same and len(nrm_atoms) == 1:
-            coef = sp.simplify(r0 * nrm_atoms[0])                      # a number: r0 = coef / |w|
-            w = [sp.expand(x) for x in nrm_atoms[0].args]
-            pos = bool(coef.is_number and coef > 0)
-            unit = pos and all(sp.expand(coef * G[i] - w[i]) == 0 for i in range(3)) if coef.is_number else False    # the vector that was normalised is coef·G itself
+        if same:
+            r1 = sp.sympify(r0).replace(lambda t: isinstance(t, sp.Function) and t.func == NRM, lambda t: sp.sqrt(sum(sp.expand(a_) ** 2 for a_ in t.args)))
+            GG = sum(sp.expand(g_) ** 2 for g_ in G)
+            unit = sp.simplify(sp.expand(sp.together(r1 ** 2).as_numer_denom()[0] * GG) - sp.expand(sp.together(r1 ** 2).as_numer_denom()[1])) == 0
+            sample = {V[i, j]: val for (i, j), val in np.ndenumerate(np.array([[3, sp.Rational(1, 7), sp.Rational(-2, 9)], [sp.Rational(-1, 3), 4, sp.Rational(1, 5)], [sp.Rational(2, 7), sp.Rational(-1, 4), 5]], dtype=object))}
+            try:
+                pos = bool(sp.N(r1.subs(sample), 30) > 0)
+            except TypeError:
+                pos = False
         ctx.ob('PLANE-NORMAL', loc, '%s: the result is the unit vector along +(h·b×c + k·c×a + l·a×b), the reciprocal-lattice vector of the plane (both in-plane lattice vectors obey the zone law, are integer, and the sense is +g)' % tag,
-               bool(par and same and pos and unit), 'parallel %s, one common factor %s, positive %s, normalised by its own length %s; factor %s' % (par, same, pos, unit, r0), node=outer, key=tag)
+               bool(par and same and pos and unit), 'parallel %s, one common factor %s, positive sense %s, unit length %s; factor %s' % (par, same, pos, unit, r0), node=outer, key=tag)
     # the same cell in other length units (micrometres ... metres): the normal is a direction, it does not depend on the unit of length.  Concrete numbers, so that any
     # closeness test in the function is evaluated with numpy's semantics |a - b| <= atol + rtol·|b| (an absolute tolerance on a cross product, a length squared, would show)
     R = sp.Rational
